@@ -14,6 +14,9 @@ cleanup() { git -C /repo worktree remove --force "$WT" 2>/dev/null; rm -rf "$S";
 trap cleanup EXIT
 cd "$WT"
 export CARGO_TARGET_DIR=$S/wt-target
+if [ -n "${SKIP_PRE:-}" ]; then
+  git apply "$D/patch.diff" || { echo "RESULT patch does not apply"; exit 2; }
+else
 cp "$D/demo.rs" tests/zz_demo.rs
 if timeout 900 cargo test --offline --features serde --test zz_demo >$S/log 2>&1; then echo "RESULT demo-without-patch: pass"; else echo "RESULT demo-without-patch: FAIL (demo is wrong)"; tail -5 $S/log; fi
 rm tests/zz_demo.rs
@@ -22,6 +25,7 @@ if timeout 900 cargo test --workspace --offline >$S/log 2>&1; then echo "RESULT 
 cp "$D/demo.rs" tests/zz_demo.rs
 if timeout 900 cargo test --offline --features serde --test zz_demo >$S/log 2>&1; then echo "RESULT demo-with-patch: pass (patch does not break the demo)"; else echo "RESULT demo-with-patch: fail (as intended)"; fi
 rm -f tests/zz_demo.rs
+fi
 rm -rf $S/wt-target
 # harness copy pointing at the patched worktree
 cp -r /verif/harness $S/harness
